@@ -100,6 +100,14 @@ Section Complex.
   Definition cconj (x : cplx) : cplx := (fst x, aneg A (snd x)).
   Definition cscale (d : F) (x : cplx) : cplx := (amul A (fst x) d, amul A (snd x) d).
   Definition cofR (d : F) : cplx := (d, azero A).
+  (* operator/( double ) and abs( const CComplex& ) of femmcomplex.cpp *)
+  Definition cdivr (x : cplx) (d : F) : cplx := (adiv A (fst x) d, adiv A (snd x) d).
+  Definition cabsf (x : cplx) : F :=
+    if aeqb A (fst x) (azero A) && aeqb A (snd x) (azero A) then azero A
+    else if altb A (aabs A (snd x)) (aabs A (fst x)) then
+      amul A (aabs A (fst x)) (asqrt A (aadd A (aone A) (amul A (adiv A (snd x) (fst x)) (adiv A (snd x) (fst x)))))
+    else
+      amul A (aabs A (snd x)) (asqrt A (aadd A (aone A) (amul A (adiv A (fst x) (snd x)) (adiv A (fst x) (snd x))))).
   Definition ceqb (x y : cplx) : bool := aeqb A (fst x) (fst y) && aeqb A (snd x) (snd y).
   (* abs( const CComplex& ) is not used by the solvers; sqrt is not defined on complex *)
   Definition CA : Arith cplx := {|
